@@ -3,6 +3,7 @@ package core
 import (
 	"go/token"
 	"go/types"
+	"strings"
 
 	"golang.org/x/tools/go/ssa"
 )
@@ -317,4 +318,115 @@ func PkgOfType(t types.Type) string {
 		return nt.Obj().Pkg().Path()
 	}
 	return ""
+}
+
+// StructLit is a composite literal (or field-wise initialised allocation) of a named struct type.
+type StructLit struct {
+	Alloc  *ssa.Alloc
+	Fields map[string]ssa.Value
+	Stores map[string]*ssa.Store
+}
+
+// StructLits finds allocations in fn of the named struct type whose name (rel-pkg.Type) has the given suffix,
+// with the values stored into their fields.
+func StructLits(fn *ssa.Function, typeSuffix string) []*StructLit {
+	var out []*StructLit
+	EachInstr(fn, func(in ssa.Instruction) {
+		a, ok := in.(*ssa.Alloc)
+		if !ok {
+			return
+		}
+		pt, isPtr := a.Type().(*types.Pointer)
+		if !isPtr {
+			return
+		}
+		nt, isNamed := pt.Elem().(*types.Named)
+		if !isNamed {
+			return
+		}
+		if _, isStruct := nt.Underlying().(*types.Struct); !isStruct || !strings.HasSuffix(ownerName(nt), typeSuffix) {
+			return
+		}
+		sl := &StructLit{Alloc: a, Fields: map[string]ssa.Value{}, Stores: map[string]*ssa.Store{}}
+		if a.Referrers() != nil {
+			for _, ref := range *a.Referrers() {
+				fa, ok := ref.(*ssa.FieldAddr)
+				if !ok || fa.Referrers() == nil {
+					continue
+				}
+				for _, r2 := range *fa.Referrers() {
+					if st, ok := r2.(*ssa.Store); ok && st.Addr == fa {
+						name := fieldName(fa.X.Type(), fa.Field)
+						sl.Fields[name] = st.Val
+						sl.Stores[name] = st
+					}
+				}
+			}
+		}
+		out = append(out, sl)
+	})
+	return out
+}
+
+// RangeIndex recognises the index variable of a `for i := range X` / `for i, v := range X` loop over a
+// slice/array/string (go/ssa lowers these to an index phi) and returns the ranged collection.
+func RangeIndex(v ssa.Value) (coll ssa.Value, ok bool) {
+	b, isBin := v.(*ssa.BinOp)
+	if !isBin || b.Op != token.ADD {
+		return nil, false
+	}
+	phi, isPhi := b.X.(*ssa.Phi)
+	if !isPhi || phi.Comment != "rangeindex" {
+		return nil, false
+	}
+	if b.Referrers() == nil {
+		return nil, false
+	}
+	for _, ref := range *b.Referrers() {
+		cmp, ok := ref.(*ssa.BinOp)
+		if !ok || cmp.Op != token.LSS || cmp.X != ssa.Value(b) {
+			continue
+		}
+		if call, ok := cmp.Y.(*ssa.Call); ok {
+			if bi, ok := call.Call.Value.(*ssa.Builtin); ok && bi.Name() == "len" {
+				return call.Call.Args[0], true
+			}
+		}
+	}
+	return nil, false
+}
+
+// RangeElem: v is the element loaded at the range index of a slice range loop (`for _, v := range X`);
+// returns the collection and the index value.
+func RangeElem(v ssa.Value) (coll ssa.Value, idx ssa.Value, ok bool) {
+	u, isLoad := v.(*ssa.UnOp)
+	if !isLoad || u.Op != token.MUL {
+		return nil, nil, false
+	}
+	ia, isIdx := u.X.(*ssa.IndexAddr)
+	if !isIdx {
+		return nil, nil, false
+	}
+	c, ok := RangeIndex(ia.Index)
+	if !ok || c != ia.X {
+		return nil, nil, false
+	}
+	return c, ia.Index, true
+}
+
+// MapRange: v is the key (idx 1) or value (idx 2) of a map range loop; returns the Range instruction.
+func MapRange(v ssa.Value) (rng *ssa.Range, which int, ok bool) {
+	e, isEx := v.(*ssa.Extract)
+	if !isEx {
+		return nil, 0, false
+	}
+	n, isNext := e.Tuple.(*ssa.Next)
+	if !isNext {
+		return nil, 0, false
+	}
+	r, isR := n.Iter.(*ssa.Range)
+	if !isR {
+		return nil, 0, false
+	}
+	return r, e.Index, true
 }
